@@ -68,6 +68,19 @@ Definition txt_parsePose : string :=
   "( buffer : Buffer ) const header = headerParser . parse ( buffer ) as unknown as PoseHeaderModel ; let body : PoseBodyModel ; const version = Math . round ( header . version * 1000 ) / 1000 ; switch ( version ) { case 0 : body = parseBodyV0_0 ( header , buffer ) ; break ; case 0.1 : case 0.2 : body = parseBodyV0_1 ( header , buffer , version ) ; break ; default : throw new Error ( ""Parsing this body version is not implemented - "" + header . version ) ; } return { header , body } ;".
 Lemma src_parsePose_tie : Gen_C05.src_parsePose = txt_parsePose.
 Proof. reflexivity. Qed.
+(* types.d.ts: the typed view of the result (the translator also checks that every declared header field is produced by
+   the corresponding schema) *)
+Lemma types_fields_tie : Gen_C05.types_fields =
+  [ ("RGBColor", ["R"; "G"; "B"]);
+    ("PoseLimb", ["from"; "to"]);
+    ("PoseHeaderComponentModel", ["name"; "format"; "_points"; "_limbs"; "_colors"; "points"; "limbs"; "colors"]);
+    ("PoseHeaderModel", ["version"; "width"; "height"; "depth"; "_components"; "components"; "headerLength"]);
+    ("PosePointModel", ["X"; "Y"; "Z?"; "C?"]);
+    ("PoseBodyFramePersonModel", ["[]"]);
+    ("PoseBodyFrameModel", ["_people"; "people"]);
+    ("PoseBodyModel", ["fps"; "_frames"; "frames"]);
+    ("PoseModel", ["header"; "body"]) ].
+Proof. reflexivity. Qed.
 Lemma src_ties :
   Gen_C05.src_newParser = txt_newParser /\
   Gen_C05.src_componentHeaderParser = txt_componentHeaderParser /\
